@@ -521,6 +521,10 @@ class ConfigParser(object):
       return False, None
 
     while continue_parsing:
+      # Adjacent string literals are separated by a space, as in the source, so
+      # that e.g. `'' 'a'` isn't glued together into `'''a'`.
+      if token_value not in ('', '-'):
+        token_value += ' '
       token_value += self._current_token.string
 
       try:
